@@ -50,4 +50,15 @@ PROPS = {
     "C09": dict(level="exploration", functions=[], lemmas=[], tierb=True),
     "C10": dict(level="exploration", functions=[], lemmas=[], tierb=True),
     "C13": dict(level="exploration", functions=[], lemmas=[], tierb=True),
+    "C03": dict(level="exploration", functions=[], lemmas=[], tierb=True),
+    "C04": dict(level="exploration", functions=[], lemmas=[], tierb=True),
+    "C11": dict(level="exploration", functions=[], lemmas=[], tierb=True),
+    "C12": dict(level="exploration", functions=[], lemmas=[], tierb=True),
+    "C14": dict(level="exploration", functions=[], lemmas=[], tierb=True),
+    "C15": dict(level="exploration", functions=[], lemmas=[], tierb=True),
+    "C16": dict(level="exploration", functions=[], lemmas=[], tierb=True),
+    "C17": dict(level="exploration", functions=[], lemmas=[], tierb=True),
+    "C18": dict(level="exploration", functions=[], lemmas=[], tierb=True),
+    "C19": dict(level="exploration", functions=[], lemmas=[], tierb=True),
+    "C20": dict(level="exploration", functions=[], lemmas=[], tierb=True),
 }
